@@ -284,6 +284,13 @@ impl ReadCursor {
                 ) {
                     Ok(_) => {
                         fence(Ordering::SeqCst);
+                        // Other consumers of the parent stream may have moved it on
+                        // since the snapshot. The new stream is visible to the
+                        // writers now and holds them back from its stale position,
+                        // so the slot at the parent's current position is intact:
+                        // start there. Nobody else uses the new position yet.
+                        let now = (*reader.pos).pos_data.load_raw(Ordering::Relaxed);
+                        (*new_reader.pos).pos_data.store_raw(now, Ordering::SeqCst);
                         manager.free(current_ptr, 1);
                         return new_reader;
                     }
